@@ -1782,3 +1782,13 @@ Proof.
     assert (Hn8 : nth 8 (pieces u) [] = path_serialize u) by (rewrite Hpieces; reflexivity).
     rewrite Hn8 in H8. destruct (path_serialize u) as [|x t]; [contradiction|]. rewrite len_cons in H8. lia.
 Qed.
+
+(* protocol setter at record level (the scheme changes, nothing else; the default-port rule is a separate clear_part) *)
+Theorem protocol_setter_repr u file sch : scheme u <> [] -> sch <> [] ->
+  let s1 := run true (init_sst (repr_of u) file) [OStartScheme; OAppend sch; OSaveScheme] in
+  s_r s1 = repr_of (set_scheme u sch) /\ s_file s1 = is_file_str sch.
+Proof.
+  intros Hs Hsch. cbv zeta. rewrite repr_of_conc.
+  destruct (setter_protocol (pieces u) 11 (flags_of u) (segs_of u) file sch (pieces_PW u Hs) Hsch) as [Hr Hf].
+  cbv zeta in Hr, Hf. rewrite Hr, Hf. split; [|reflexivity]. rewrite repr_of_conc. reflexivity.
+Qed.
